@@ -51,12 +51,25 @@
    elimination modulo the prime 32749 (i -> 15645) on the top Nt x Nt block, tall channels get
    extra alphabet rows.
 
+   Channel gain and degenerate channels.  The channel handed to the implementation is 10^sc * H with
+   the exponent sc taken from `Scales` (a sweep 1e-7 .. 1e7 over the channel index); all exact values
+   of the machine are those of the unit-gain channel H.  The property is gain equivariant: encode does
+   not depend on the gain, the received signal scales with 10^sc, the receive filters with 10^-sc, and
+   with the noise variance given as 10^(2 sc)/q the decoded block and the SINRs do not depend on sc
+   (`ScaleLaw`, checked exactly for the gain 2).  Every IsoEvery-th channel of Blast / SVD / GMD is a
+   scaled ISOMETRY c * P * diag(phases) (identity, antenna swap, exactly unitary; tall: stacked on zero
+   rows): full rank, condition number 1, all singular values exactly equal - the degenerate-but-valid
+   corner of the domain (they bypass the genericity filter `GoodMimo`).
+
    Named deviations (fields of Dev) switch single steps to what the code does / did:
      SvdNeedsSquare           SVDMimo.decode raises for Nr > Nt (full SVD, diag(1/S) U^H shape)
      SinrCoherentInterference calc_post_processing_linear_SINRs adds the interfering streams
                               coherently ( |sum e_kj|^2 instead of sum |e_kj|^2 )
      NvNoneKeepsFilter        (plausible regression) a cached receive filter survives
                               set_noise_var(None)
+     GmdAbsoluteTol           (plausible regression) GMD drops singular values below an ABSOLUTE threshold:
+                              a well conditioned channel of small gain loses streams
+     GmdTieBreaks             (plausible regression) GMD cannot handle exactly equal singular values
      QuerySetsNoiseVar        (plausible regression) a SINR query configures the receiver with its argument
      RejectedKeepsEffect      (plausible regression) a refused channel update stays installed
    With all flags FALSE every invariant below holds.                                        *)
@@ -74,6 +87,8 @@ CONSTANTS Schemes,   \* subset of {"blast","mrc","mrt","svd","gmd","alamouti"}
           DecQs,     \* DecQs[nt] = sequence of q > 0 offered to set_noise_var for blast/mrc
           HistEvery, \* channels with k % HistEvery = 0 get receiver histories of length HistDeep (others 2)
           HistDeep,
+          Scales,    \* sequence of gain exponents: channel k is handed over as 10^Scales[k % Len + 1] * H
+          IsoEvery,  \* every IsoEvery-th channel of blast / svd / gmd is a scaled isometry
           QueryQ,    \* the SINR queries inside the histories ask for sigma^2 = 1/QueryQ
           Vanish,    \* sequence of exponents e: noise variances 10^-e along which MMSE -> ZF is followed (rel)
           Dev        \* [name |-> BOOLEAN]
@@ -188,7 +203,19 @@ PickChan(sch, alpha, nr, nt, s, tries) ==
     IN  IF tries = 0 \/ ValidFor(sch, H) THEN H
         ELSE PickChan(sch, alpha, nr, nt, ys[nr * nt], tries - 1)
 
+\* scaled isometry  c * P * diag(phases), zero rows below for tall shapes: all singular values equal c
+IsIso(sch, k) == sch \in {"blast", "svd", "gmd"} /\ k % IsoEvery = 0
+IsoChannel(nr, nt, k, s) ==
+    LET ys   == TLCEval(LcgSeq(s, 2 * nt + 1))
+        c    == 1 + (Mix(ys[2 * nt + 1]) % 2)
+        ph   == [j \in 1..nt |-> IF k % (2 * IsoEvery) = 0 THEN <<1, 0>> ELSE Pick(Units, ys[j])]
+        keys == [j \in 1..nt |-> IF k % (4 * IsoEvery) = 0 THEN j ELSE ys[nt + j]]       \* identity now and then
+    IN  Eager([i \in 1..nr |-> [j \in 1..nt |->
+            IF i <= nt /\ RankOf(keys, j) = i THEN <<c * ph[j][1], c * ph[j][2]>> ELSE <<0, 0>>]])
+ScaleOf(k) == Scales[(k % Len(Scales)) + 1]
+
 ChannelFor(sch, nr, nt, k) ==
+    IF IsIso(sch, k) THEN IsoChannel(nr, nt, k, Start((((k * 16 + nr) * 16 + nt) * 5) + 4)) ELSE
     IF sch \in {"svd", "gmd"} /\ nt >= 4 THEN PickBig(nr, nt, k, Start((((k * 16 + nr) * 16 + nt) * 5) + 3), 20) ELSE
     PickChan(sch, IF sch = "mrt" THEN Pyth ELSE Alpha, nr, nt,
              Start((((k * 5 + nr) * 4 + nt) * 5) + Fam(sch)), 40)
@@ -267,6 +294,8 @@ DecodeOf(c, r, v, qv) ==
       [] c.sch = "mrt"      -> [kind |-> "exact", v |-> MrtDecode(c.H[1], r.m)]
       [] c.sch = "alamouti" -> [kind |-> "exact", v |-> AlaDecode(Ints(c.H), r.m)]
       [] c.sch = "svd" /\ Dev.SvdNeedsSquare /\ c.nr > c.nt -> [kind |-> "raised", v |-> None]
+      [] c.sch = "gmd" /\ Dev.GmdAbsoluteTol /\ c.sc <= -6    -> [kind |-> "raised", v |-> None]
+      [] c.sch = "gmd" /\ Dev.GmdTieBreaks /\ c.iso /\ c.nt >= 2 -> [kind |-> "raised", v |-> None]
       [] OTHER              -> [kind |-> "rel", v |-> v]                          \* ideal link
 
 \* receiver scale^2 of each scheme (the transmitter's is tx.s2)
@@ -291,6 +320,8 @@ BlastFilters(c) ==
     LET Hm == Ints(c.H)  HH == Eager(MHerm(Hm))  Gm == Eager(MMul(HH, Hm))
         Z  == ZfOf(Hm)
         Ez == Eager(MMul(Z.num, Hm))
+        H2 == Eager(MScale(G(2, 0), Hm))                  \* the channel with gain 2
+        Z2g == ZfOf(H2)
         A2 == BSumSq(Eager(MAdj(Gm)))                     \* ||G^-1||_F^2 = A2 / den_z^2
         Z2 == BSumSq(Z.num)                               \* ||ZF||_F^2   = Z2 / den_z^2
         PerQ(qv) ==
@@ -311,6 +342,10 @@ BlastFilters(c) ==
          zf |-> [num |-> IntsOf(Z.num), den |-> Z.den],
          zfLeft |-> (Ez = MScale(G(Z.den, 0), MIdent(c.nt))),                         \* ZF H = I
          zfDef  |-> (MMul(Gm, Z.num) = MScale(G(Z.den, 0), HH)),                      \* (H^H H) ZF = H^H
+         \* gain law:  ZF(2H) = ZF(H)/2  and  MMSE(2H, 4 s) = MMSE(H, s)/2  (s = 1/4)
+         zfGain |-> (MScale(G(2 * Z.den, 0), Z2g.num) = MScale(G(Z2g.den, 0), Z.num)),
+         mmGain |-> LET F1 == MmseOf(Hm, 4)  F2 == MmseOf(H2, 1)
+                    IN  MScale(G(2 * F1.den, 0), F2.num) = MScale(G(F2.den, 0), F1.num),
          ginv2 |-> [num |-> A2, den |-> BSq(Z.den)], zf2 |-> [num |-> Z2, den |-> BSq(Z.den)],
          vanish |-> Vanish, req |-> <<"MmseWithinBoundOfZf">>,
          mm |-> [i \in 1..Len(qs) |-> PerQ(qs[i])]]
@@ -334,8 +369,9 @@ SetChannel(sch, nr, nt, k) ==
     /\ stage = "idle"
     /\ ShapeOK(sch, nr, nt)
     /\ LET H == ChannelFor(sch, nr, nt, k)
-       IN  /\ ValidFor(sch, H)
-           /\ cs' = [sch |-> sch, nr |-> nr, nt |-> nt, k |-> k, H |-> H, form |-> FormFor(sch, nr, nt, k)]
+       IN  /\ IsIso(sch, k) \/ ValidFor(sch, H)
+           /\ cs' = [sch |-> sch, nr |-> nr, nt |-> nt, k |-> k, H |-> H, form |-> FormFor(sch, nr, nt, k),
+                     sc |-> ScaleOf(k), iso |-> IsIso(sch, k)]
     /\ stage' = "chan"
     /\ UNCHANGED <<x, tx, rx, q, out, flt, hist, decs, cache, chanOK, dn>>
 
@@ -481,6 +517,7 @@ MmseTendsToZf ==
         /\ \A i \in 1..Len(flt.mm) : ~BIsZero(flt.mm[i].S)
         /\ \A i \in 1..(Len(flt.mm) - 1) :
                BLt(BMul(flt.mm[i + 1].S, flt.mm[i].den2), BMul(flt.mm[i].S, flt.mm[i + 1].den2))
+ScaleLaw == (stage = "flt" /\ flt.kind = "blast") => (flt.zfGain /\ flt.mmGain)
 \* the quantitative form of "tends to": ||MMSE(s) - ZF||_F <= s ||(H^H H)^-1||_F ||ZF||_F for every s > 0
 \* (from MMSE - ZF = -s (G + s I)^-1 ZF); a theorem of the definitions, checked here on the enumerated s and
 \* handed to the harness as the relation it follows down to s = 10^-16 (flt.vanish)
@@ -504,15 +541,15 @@ BadLengthRaises == stage = "bad" => (out.kind = "raised" /\ Len(x) % cs.nt # 0)
 (* ------------------------------ emission ------------------------------------------------ *)
 Emit ==
     IF stage' = "dec" /\ Len(hist') = HistLenOf(cs', dn') THEN
-        EmitCase([op |-> "link", sch |-> cs'.sch, nr |-> cs'.nr, nt |-> cs'.nt, k |-> cs'.k, form |-> cs'.form,
+        EmitCase([op |-> "link", sch |-> cs'.sch, nr |-> cs'.nr, nt |-> cs'.nt, k |-> cs'.k, form |-> cs'.form, sc |-> cs'.sc, iso |-> cs'.iso,
                   H |-> cs'.H, x |-> x', layers |-> Layers(cs'), tx |-> tx', rx |-> rx', steps |-> hist', decs |-> decs', laws |-> Laws, qq |-> QueryQ,
                   energy |-> RDiv(Energy(Vec(x')), <<Len(x'), 1>>),
                   req |-> IF tx'.kind = "rel" THEN <<"DecodeEqualsData", "EnergyPreserved">> ELSE <<>>])
     ELSE IF stage' = "flt" THEN
-        EmitCase([op |-> "filters", sch |-> cs'.sch, nr |-> cs'.nr, nt |-> cs'.nt, k |-> cs'.k, form |-> cs'.form,
+        EmitCase([op |-> "filters", sch |-> cs'.sch, nr |-> cs'.nr, nt |-> cs'.nt, k |-> cs'.k, form |-> cs'.form, sc |-> cs'.sc, iso |-> cs'.iso,
                   H |-> cs'.H, flt |-> flt'])
     ELSE IF stage' = "bad" THEN
-        EmitCase([op |-> "badlen", sch |-> cs'.sch, nr |-> cs'.nr, nt |-> cs'.nt, k |-> cs'.k, form |-> cs'.form,
+        EmitCase([op |-> "badlen", sch |-> cs'.sch, nr |-> cs'.nr, nt |-> cs'.nt, k |-> cs'.k, form |-> cs'.form, sc |-> cs'.sc, iso |-> cs'.iso,
                   H |-> cs'.H, x |-> x', out |-> out'])
     ELSE TRUE
 =============================================================================
